@@ -5,7 +5,7 @@
    reset_first at the end of StoreLogs); deletion delayed by readers that still hold
    a reference to an older state is outside this sequential model.
    Definitions only; proofs in LiveDirFacts.v. *)
-From RW Require Import Base.Bytes Fmt.Codec Fmt.Frame Wal.Model Wal.Spec Wal.Hist Gen.Constants.
+From RW Require Import Base.Bytes Fmt.Codec Fmt.Frame Wal.Model Wal.Spec Wal.Hist Wal.CrashExamples Gen.Constants.
 Open Scope N_scope.
 
 Definition names (d : disk) : list fname := map fst (dk_files d).
@@ -51,3 +51,34 @@ Definition delete_reclaims_stmt : Prop :=
        lookup (name_of x) (dk_files (e_disk (ss_env s'))) = None) /\
     (forall n f, lookup n (dk_files (e_disk (ss_env s'))) = Some f -> listed (st_segs (ss_wal s')) n = true) /\
     (forall x, In x (st_segs (ss_wal s')) -> lookup (name_of x) (dk_files (e_disk (ss_env s'))) <> None).
+
+(* ---- a concrete history for the non-vacuity examples of Props/C13.v ----
+   segment size 128: two 56-byte entries per segment.  Seven single-entry appends give
+   the sealed segments (1,0) = [1,2], (3,1) = [3,4], (5,2) = [5,6] and the tail (7,3) = [7];
+   DeleteRange(0,5) drops (1,0) and (3,1) whole and keeps entry 6 of (5,2);
+   DeleteRange(7,9) drops the tail (7,3) whole and installs the new tail (7,4). *)
+Definition hist_live_stores : list hstep :=
+  HOpen :: map (fun i => HOp (OStore [ex_log i 1])) [1; 2; 3; 4; 5; 6; 7].
+Definition hist_live_head : list hstep := hist_live_stores ++ [HOp (ODelete 0 5)].
+Definition hist_live_trunc : list hstep := hist_live_head ++ [HOp (ODelete 7 9)].
+
+(* the directory and the segment list (name, min, max, sealed) of the running WAL *)
+Definition live_files (c : cfg) (steps : list hstep) : list fname :=
+  match hs_mode (hist_run c hist_init steps) with Up s => names (e_disk (ss_env s)) | Down _ => [] end.
+Definition live_segs (c : cfg) (steps : list hstep) : list (fname * N * N * bool) :=
+  match hs_mode (hist_run c hist_init steps) with
+  | Up s => map (fun x => (name_of x, si_min x, si_max x, si_sealed x)) (st_segs (ss_wal s))
+  | Down _ => []
+  end.
+Definition live_rotation_pending (c : cfg) (steps : list hstep) : bool :=
+  match hs_mode (hist_run c hist_init steps) with
+  | Up s => match st_rotate (ss_wal s) with Some _ => true | None => false end
+  | Down _ => false
+  end.
+(* which of the segments DeleteRange(mn, mx) works on lie wholly inside the range *)
+Definition live_inside (c : cfg) (steps : list hstep) (mn mx : N) : list (fname * bool) :=
+  match hs_mode (hist_run c hist_init steps) with
+  | Up s => let s0 := settle c s in
+            map (fun x => (name_of x, seg_inside mn mx (tail_last (st_tail (ss_wal s0))) x)) (st_segs (ss_wal s0))
+  | Down _ => []
+  end.
